@@ -91,7 +91,13 @@ def vkey(spec, o, c):
         if pred(spec):
             row, mn = r, m
             break
-    simd = any(x['k'] == 'reg' and x['c'] in ('mm', 'xmm') for x in spec['ops'])
+    if row in ('jcc rel8', 'jcc rel16/32'):
+        mn = 'jcc'
+    elif row in ('cmovcc', 'setcc'):
+        mn = row
+    o2 = spec['opc'][1]
+    simd = (spec['opc'][0] in ('38', '3A') or (spec['opc'][0] == '0F' and (0x10 <= o2 <= 0x17 or 0x28 <= o2 <= 0x2F or 0x50 <= o2 <= 0x7F
+                                                                      or 0xC2 <= o2 <= 0xC6 or 0xD0 <= o2 <= 0xFE)))
     if sh.startswith('disp-only memory operand'):
         row, mn = '*', '*'
     elif spec['as'] == 16 and simd and clause in ('C01.base', 'C01.index', 'C01.scale', 'C01.disp', 'C01.len', 'C01.size', 'C01.seg', 'C01.kind'):
@@ -119,7 +125,10 @@ def report(chk, obs, verdicts):
 
 def judge_space(chk, label, strings, rnd, rows=None):
     """decode `strings` with miasmX, judge with T_C01, report"""
+    import time
+    t0 = time.time()
     obs = ia32lib.observe(strings, want_row=True)
+    t1 = time.time()
     recs = [ia32lib.to_record(i, o) for i, o in enumerate(obs)]
     order = list(range(len(recs)))
     rnd.shuffle(order)
@@ -133,7 +142,8 @@ def judge_space(chk, label, strings, rnd, rows=None):
     chk.cov.setdefault('spaces', {})[label] = {
         'strings': len(strings), 'compared': tot['cmp'], 'skipped_spec_rejects': tot['specrej'],
         'skipped_impl_rejects': tot['implrej'], 'skipped_superfluous_prefix': tot['superfluous'],
-        'miasmx_outcomes': dict(stc), 'records_with_failing_clause': len(verdicts)}
+        'miasmx_outcomes': dict(stc), 'records_with_failing_clause': len(verdicts),
+        'wall_miasmx_s': round(t1 - t0, 1), 'wall_tlc_s': round(st['wall'], 1)}
     chk.cov['evaluations'] += len(strings)
     chk.cov['traces_validated_against_impl'] += len(recs)
     chk.cov['distinct_nontrivial'] += tot['cmp']
@@ -151,6 +161,19 @@ def judge_space(chk, label, strings, rnd, rows=None):
             chk.sample({'space': label, 'bytes': bytes(o['b']).hex(), 'miasmx': o['text'], 'len': o['len'], 'ops': o['ops']})
     report(chk, obs, verdicts)
     return obs
+
+
+FILL = bytes([0x11, 0x22, 0x33, 0x44, 0x55, 0x77, 0x88, 0x99])
+
+
+def pad(hexes):
+    """generated instruction + filler bytes (a decoder that takes a longer immediate/displacement than the architecture
+    prescribes must find bytes to take; exact-length and truncated inputs are C10's business)"""
+    out = []
+    for h in hexes:
+        b = bytes.fromhex(h)
+        out.append(b + FILL[:max(0, min(len(FILL), 15 - len(b)))])
+    return out
 
 
 def table_rows():
@@ -171,10 +194,10 @@ def run(tier, chk):
     # S->C: the generated space
     if quick:
         g = ia32space.gen(1, False, None, chk)
-        judge_space(chk, 'IA32Space MaxDev=1', [bytes.fromhex(h) for h in g['done'] + g['dead']], rnd, rows)
+        judge_space(chk, 'IA32Space MaxDev=1', pad(g['done'] + g['dead']), rnd, rows)
         g = ia32space.gen(1, True, [0x00, 0x01, 0x0F, 0x62, 0x80, 0x8B, 0x8D, 0xC4, 0xD9, 0xDD, 0xFF], chk)
         judge_space(chk, 'IA32Space MaxDev=1 base=67 (16-bit addressing), focus opcodes',
-                    [bytes.fromhex(h) for h in g['done']], rnd, rows)
+                    pad(g['done']), rnd, rows)
     else:
         for lo in range(0, 256, 16):
             op1 = list(range(lo, lo + 16))
@@ -182,13 +205,13 @@ def run(tier, chk):
                 # the 0F escape carries the two- and three-byte maps: own shards below
                 op1.remove(0x0F)
             g = ia32space.gen(2, False, op1, chk)
-            judge_space(chk, 'IA32Space MaxDev=2 op %02X-%02X' % (lo, lo + 15), [bytes.fromhex(h) for h in g['done'] + g['dead']], rnd, rows)
+            judge_space(chk, 'IA32Space MaxDev=2 op %02X-%02X' % (lo, lo + 15), pad(g['done'] + g['dead']), rnd, rows)
         g = ia32space.gen(2, False, [0x0F], chk)
-        s = [bytes.fromhex(h) for h in g['done'] + g['dead']]
+        s = pad(g['done'] + g['dead'])
         for k in range(0, len(s), 400000):
             judge_space(chk, 'IA32Space MaxDev=2 op 0F part %d' % (k // 400000), s[k:k + 400000], rnd, rows)
         g = ia32space.gen(1, True, None, chk)
-        judge_space(chk, 'IA32Space MaxDev=1 base=67', [bytes.fromhex(h) for h in g['done']], rnd, rows)
+        judge_space(chk, 'IA32Space MaxDev=1 base=67', pad(g['done']), rnd, rows)
     # C->S: seeded random structured byte strings of 1..15 bytes
     rs = ia32space.random_strings(rnd, 30000 if quick else 400000)
     judge_space(chk, 'random structured strings', rs, rnd, rows)
